@@ -37,6 +37,7 @@ type Frame struct {
 	names    map[string]ssa.Value
 	defers   []deferred
 	loopSnap map[*ssa.BasicBlock]*loopSnap
+	loopIter map[*ssa.BasicBlock]int
 	dryBody  map[*ssa.BasicBlock]bool
 	chain    string // inlining chain for obligation labels
 	entry    *State // state at function entry (for old())
@@ -68,6 +69,10 @@ func (f *Frame) clone() *Frame {
 		n.names[k] = v
 	}
 	n.defers = append([]deferred(nil), f.defers...)
+	n.loopIter = make(map[*ssa.BasicBlock]int, len(f.loopIter))
+	for k, v := range f.loopIter {
+		n.loopIter[k] = v
+	}
 	n.loopSnap = make(map[*ssa.BasicBlock]*loopSnap, len(f.loopSnap))
 	for k, v := range f.loopSnap {
 		n.loopSnap[k] = v
@@ -125,6 +130,13 @@ type Exec struct {
 	inInit    bool
 	initPkg   *ssa.Package
 	heapPrefix string
+	preferInline bool
+	frameOn   bool
+	frameOff  int
+	modRefs   []*Term
+	alloc0    *Term
+	curIns    ssa.Instruction
+	curFr     *Frame
 	extraAxioms []*Term
 	qcount    int
 	ghostVars map[string]func(*specScope) Value
@@ -445,7 +457,7 @@ func (x *Exec) runFunc(st *State, fn *ssa.Function, args []Value, binds []Value,
 	if len(fn.Blocks) == 0 {
 		unsup("function %s has no body", fn)
 	}
-	fr := &Frame{fn: fn, env: map[ssa.Value]Value{}, names: map[string]ssa.Value{}, loopSnap: map[*ssa.BasicBlock]*loopSnap{}, chain: chain, depth: depth, fc: fc}
+	fr := &Frame{fn: fn, env: map[ssa.Value]Value{}, names: map[string]ssa.Value{}, loopSnap: map[*ssa.BasicBlock]*loopSnap{}, loopIter: map[*ssa.BasicBlock]int{}, chain: chain, depth: depth, fc: fc}
 	for i, p := range fn.Params {
 		fr.env[p] = args[i]
 		fr.names[p.Name()] = p
@@ -468,14 +480,28 @@ func (x *Exec) run(fr *Frame, st *State, b *ssa.BasicBlock, pred *ssa.BasicBlock
 			// block entry
 			li := x.loops(fr.fn)
 			if ord, isHeader := li.headers[b]; isHeader && pred != nil {
-				if li.body[b][pred] {
+				lc := x.loopContract(fr, ord)
+				if lc != nil && lc.Unroll > 0 && !st.dry {
+					// bounded-by-construction loop: unrolled, with an unwinding obligation
+					x.evalPhis(fr, st, b, pred)
+					if li.body[b][pred] {
+						fr.loopIter[b]++
+						if fr.loopIter[b] > lc.Unroll {
+							x.oblige(fr, st, "unwind", fmt.Sprintf("loop%d:at_most_%d_iterations", ord, lc.Unroll), b.Instrs[0].Pos(), False)
+							return nil
+						}
+					} else {
+						fr.loopIter[b] = 0
+					}
+				} else if li.body[b][pred] {
 					// back edge
 					x.evalPhis(fr, st, b, pred)
 					x.loopBack(fr, st, b, ord)
 					return nil
+				} else {
+					x.evalPhis(fr, st, b, pred)
+					x.loopEnter(fr, st, b, ord)
 				}
-				x.evalPhis(fr, st, b, pred)
-				x.loopEnter(fr, st, b, ord)
 			} else if pred != nil {
 				x.evalPhis(fr, st, b, pred)
 			}
@@ -520,6 +546,7 @@ func (x *Exec) runInstrs(fr *Frame, st *State, b *ssa.BasicBlock, start int) (ne
 	for i := start; i < len(b.Instrs); i++ {
 		ins := b.Instrs[i]
 		x.Stats.Instrs++
+		x.curIns, x.curFr = ins, fr
 		switch in := ins.(type) {
 		case *ssa.Phi:
 			continue
@@ -715,18 +742,26 @@ func (x *Exec) loopEnter(fr *Frame, st *State, h *ssa.BasicBlock, ord int) {
 		}
 	}
 	if st.dry {
-		// in a dry run just havoc everything once and go through the body
+		// nested loop inside a dry run: conservatively havoc everything once and go through the body
 		fr.loopSnap[h] = &loopSnap{}
 		x.havocAll(st)
 		x.havocPhis(fr, st, h)
 		return
 	}
-	// 2. discover write set by a dry run of the body
-	written := x.discoverWrites(fr, st, h)
-	// 3. havoc
-	for _, k := range written {
-		x.havocComp(st, k)
+	// 2. discover write set by dry runs of the body (to a fixpoint on the set of components)
+	ws := x.discoverWrites(fr, st, h)
+	// 3. havoc: whole component, or only the loop-invariant references written
+	for _, k := range sortedKeys(ws.comps) {
+		r := ws.comps[k]
+		if r.all {
+			x.havocComp(st, k)
+			continue
+		}
+		for _, ref := range r.refs {
+			x.havocAt(st, k, ref)
+		}
 	}
+	x.bumpAlloc(st)
 	x.havocPhis(fr, st, h)
 	// automatic invariants for induction variables
 	x.autoInvariants(fr, st, h)
@@ -948,25 +983,73 @@ func (x *Exec) havocAll(st *State) {
 	}
 }
 
-// discoverWrites runs the loop body once in dry mode from a fully havocked state and returns the heap
-// components written on any syntactic path (a sound superset: path exploration is syntactic).
-func (x *Exec) discoverWrites(fr *Frame, st *State, h *ssa.BasicBlock) []string {
-	dst := st.clone()
-	dst.dry = true
-	dfr := fr.clone()
-	dfr.dryBody = x.loops(fr.fn).body[h]
-	dfr.loopSnap[h] = &loopSnap{}
+// discoverWrites runs the loop body in dry mode until the set of written heap components is stable.
+// Path exploration is syntactic (no pruning), so the component set is a sound superset; the references
+// recorded in the final run were computed with every possibly-written component havocked, hence
+// references built only from symbols older than the run are loop invariant.
+func (x *Exec) discoverWrites(fr *Frame, st *State, h *ssa.BasicBlock) *writeSet {
+	W := map[string]bool{}
 	savedPaths := x.paths
-	dst.written = nil
-	x.havocAll(dst)
-	dst.written = map[string]bool{}
-	x.havocPhis(dfr, dst, h)
-	x.run(dfr, dst, h, nil, 0)
-	x.paths = savedPaths
-	var out []string
-	for k := range dst.written {
-		out = append(out, k)
+	defer func() { x.paths = savedPaths }()
+	for iter := 0; ; iter++ {
+		dst := st.clone()
+		dst.dry = true
+		dfr := fr.clone()
+		dfr.dryBody = x.loops(fr.fn).body[h]
+		dfr.loopSnap[h] = &loopSnap{}
+		dst.written = nil
+		for _, k := range sortedKeys(W) {
+			x.havocComp(dst, k)
+		}
+		for k := range dst.ghost {
+			dst.ghost[k] = x.c.Fresh("ghost_"+k, dst.ghost[k].S)
+		}
+		ws := &writeSet{comps: map[string]*wrec{}, start: x.c.fresh}
+		x.havocPhis(dfr, dst, h)
+		ws.start = x.c.fresh
+		dst.written = ws
+		x.run(dfr, dst, h, nil, 0)
+		grew := false
+		for k := range ws.comps {
+			if !W[k] {
+				W[k] = true
+				grew = true
+			}
+		}
+		if !grew || iter > 6 {
+			if grew {
+				for _, r := range ws.comps {
+					r.all = true
+				}
+			}
+			return ws
+		}
 	}
-	sort.Strings(out)
-	return out
+}
+
+// bumpAlloc forgets the exact allocation counter (earlier iterations / callees may have allocated).
+func (x *Exec) bumpAlloc(st *State) {
+	a := x.c.Fresh("alloc", SInt)
+	st.assume(IntCmp(">=", a, st.alloc))
+	st.alloc = a
+}
+
+// havocAt replaces the contents of component k at reference ref by a fresh value.
+func (x *Exec) havocAt(st *State, k string, ref *Term) {
+	cur, ok := st.heap[k]
+	if !ok {
+		cur = x.initialHeapSym(k)
+		if cur == nil {
+			return
+		}
+	}
+	fresh := x.c.Fresh("Hl_"+k, *cur.S.Elem)
+	t := Store(cur, ref, fresh)
+	v := x.c.Fresh("H_"+k, t.S)
+	v.Def = t
+	st.assume(Eq(v, t))
+	x.defs[v.Name] = t
+	st.heap[k] = v
+	x.recordWrite(st, k, t)
+	x.assumeGlobFacts(st, k, v)
 }
